@@ -218,7 +218,10 @@ def run_realign_file(scratch, g_text, fasta_text, recs, tag="ra"):
         os.remove(os.path.join(d, f))
     fw.write_text(os.path.join(d, "g.gfa"), g_text)
     fw.write_text(os.path.join(d, "r.fa"), fasta_text)
-    fw.write_text(os.path.join(d, "in.gaf"), "".join(r.line() + "\n" for r in recs))
+    text = "".join(r.line() + "\n" for r in recs)
+    if len(text) % 3 == 1:
+        text = text[:-1]  # some input files end without a newline
+    fw.write_text(os.path.join(d, "in.gaf"), text)
     outp = os.path.join(d, "out.gaf")
     out = fw.guarded(R.run_realign, gaf=os.path.join(d, "in.gaf"), graph=os.path.join(d, "g.gfa"), fasta=os.path.join(d, "r.fa"), output=outp, cores=1, _trigger_s=1200)
     gc.collect()
@@ -309,6 +312,19 @@ def judge_records(res, g, reads, recs, out, lines, info, scratch=None):
             res.fail(f"C12/{kind}", text + (f" (only after {len(ctx) - 1} earlier record(s) in the same file)" if len(ctx) > 1 else ""), case)
 
 
+def prime(scratch, g, reads, recs):
+    """one realign call in this process on a sibling graph first: same segment and read names, other sequences. A result
+    must not depend on what an earlier call has seen (caches keyed by path string, read name, ...)."""
+    sib = rgfa.Graph()
+    for s_ in g.segs.values():
+        sib.add_seg(s_.id, rgfa.revcomp(s_.seq)[::-1][::-1].replace("A", "t").replace("C", "A").replace("t", "C"), s_.tags)
+    sib.links = list(g.links)
+    few = recs[:40]
+    names = list(dict.fromkeys(r.qname for r in few))
+    fa = "".join(f">{q}\n{reads[q][::-1]}\n" for q in names)
+    run_realign_file(scratch, sib.text(), fa, few, tag="prime")
+
+
 def run_shard(spec, tier, scratch):
     res = fw.ShardResult()
     if spec.get("boundary"):
@@ -346,6 +362,7 @@ def run_shard(spec, tier, scratch):
             recs.append(rgfa.Rec(qname, len(read), qs, qe, "+", rgfa.steps_str(steps), len(seq), s, e, m, bl, 60, opt))
             info.append((len(eds), any(o == "<" for o, x in steps)))
     fasta = "".join(f">{q}\n{s_}\n" for q, s_ in reads.items())
+    prime(scratch, g, reads, recs)
     out, lines = run_realign_file(scratch, g.text(), fasta, recs)
 
     judge_records(res, g, reads, recs, out, lines, info, scratch)
@@ -429,6 +446,7 @@ def replay(case, scratch):
     if any(len(v) > 50_000 for v in reads.values()) is False and any(r.qe - r.qs > 50_000 for r in recs):
         pass
     fasta = "".join(f">{q}\n{s_}\n" for q, s_ in reads.items())
+    prime(scratch, g, reads, recs)
     out, lines = run_realign_file(scratch, case["gfa"], fasta, recs)
     judge_records(res, g, reads, recs, out, lines, [(1, False)] * len(recs), None)
     return res.failures
